@@ -95,7 +95,7 @@ MUTANTS = [
      "        for e in self._edges:\n            e.information = (e.information + np.transpose(e.information)) / 2.0 + 0.0\n            e.information[0, 0] *= 1.0 + 1e-15\n\n        # Previous iteration's chi^2 error\n        chi2_prev = -1.0\n"),
     ("C15", "equals_normalizes_operand", SE3, "    def normalize(self):\n        \"\"\"Normalize the quaternion portion of the pose.\"\"\"\n",
      "    def equals(self, other, tol=1e-6):\n        \"\"\"Compare after normalizing.\"\"\"\n        other.normalize()\n        return np.linalg.norm(self.to_array() - other.to_array()) / max(np.linalg.norm(self.to_array()), tol) < tol\n\n    def normalize(self):\n        \"\"\"Normalize the quaternion portion of the pose.\"\"\"\n"),
-    ("C15", "to_g2o_sorts_vertices", G, "            for v in self._vertices:\n                f.write(v.to_g2o())", "            self._vertices.sort(key=lambda v: v.id)\n            for v in self._vertices:\n                f.write(v.to_g2o())"),
+    ("C15", "to_g2o_sorts_vertices", G, "        for v in self._vertices:\n            lines.append(v.to_g2o())", "        self._vertices.sort(key=lambda v: v.id)\n        for v in self._vertices:\n            lines.append(v.to_g2o())"),
     # ------------------------------------------------------------------ C13
     ("C13", "vertex_se2_six_decimals", VX, "            return \"VERTEX_SE2 {} {} {} {}\\n\".format(", "            return \"VERTEX_SE2 {} {:.6f} {:.6f} {:.6f}\\n\".format("),
     ("C13", "edge_se2_info_15g", EO, "self.estimate[2]) + \" \".join([str(float(x)) for x in self.information[np.triu_indices(3, 0)]])", "self.estimate[2]) + \" \".join([\"{:.15g}\".format(x) for x in self.information[np.triu_indices(3, 0)]])"),
@@ -103,11 +103,14 @@ MUTANTS = [
     ("C13", "edge_se3_info_column_major", EO, "self.information[np.triu_indices(6, 0)]", "self.information[np.tril_indices(6, 0)]"),
     ("C13", "trackxyz_offset_id_dropped", EL, "self.vertex_ids[1], self.offset_id, self.estimate[0]", "self.vertex_ids[1], 0, self.estimate[0]"),
     ("C13", "params_written_after_edges", G,
-     "            if self._g2o_params:\n                for g2o_param in self._g2o_params.values():\n                    f.write(g2o_param.to_g2o())\n\n            for v in self._vertices:\n                f.write(v.to_g2o())\n\n            for e in self._edges:\n                edge_str_or_none = e.to_g2o()\n                if edge_str_or_none:\n                    f.write(edge_str_or_none)\n",
-     "            for v in self._vertices:\n                f.write(v.to_g2o())\n\n            for e in self._edges:\n                edge_str_or_none = e.to_g2o()\n                if edge_str_or_none:\n                    f.write(edge_str_or_none)\n\n            if self._g2o_params:\n                for g2o_param in self._g2o_params.values():\n                    f.write(g2o_param.to_g2o())\n"),
+     "        lines = []\n        if self._g2o_params:\n            for g2o_param in self._g2o_params.values():\n                lines.append(g2o_param.to_g2o())\n",
+     "        lines = []\n        tail = []\n        if self._g2o_params:\n            for g2o_param in self._g2o_params.values():\n                tail.append(g2o_param.to_g2o())\n"),
+    ("C13", "params_written_after_edges_2", G,
+     ["        lines = []\n        if self._g2o_params:\n            for g2o_param in self._g2o_params.values():\n                lines.append(g2o_param.to_g2o())\n", "            for line in lines:\n                f.write(line)\n"],
+     ["        lines = []\n        tail = []\n        if self._g2o_params:\n            for g2o_param in self._g2o_params.values():\n                tail.append(g2o_param.to_g2o())\n", "            for line in lines + tail:\n                f.write(line)\n"]),
     ("C13", "export_append_mode", G, "        with open(outfile, \"w\") as f:", "        with open(outfile, \"a\") as f:"),
-    ("C13", "export_swallows_oserror", G, "            for e in self._edges:\n                edge_str_or_none = e.to_g2o()\n                if edge_str_or_none:\n                    f.write(edge_str_or_none)\n",
-     "            for e in self._edges:\n                edge_str_or_none = e.to_g2o()\n                if edge_str_or_none:\n                    try:\n                        f.write(edge_str_or_none)\n                    except OSError:\n                        break\n"),
+    ("C13", "export_swallows_oserror", G, "            for line in lines:\n                f.write(line)\n",
+     "            for line in lines:\n                try:\n                    f.write(line)\n                except OSError:\n                    break\n"),
     ("C13", "vertex_id_via_float", VX, "            p = PoseSE2(arr[:2], arr[2])\n            return cls(int(numbers[0]), p)", "            p = PoseSE2(arr[:2], arr[2])\n            return cls(int(float(numbers[0])), p)"),
     ("C13", "revert_F3_2d_offset_dropped", EL, "            if np.any(self.offset.to_array() != 0.0):", "            if False:"),
     ("C13", "revert_F4_missing_param_written", G, "                if param is None or not np.array_equal(param.value.to_array(), e.offset.to_array()):", "                if False:"),
@@ -115,8 +118,11 @@ MUTANTS = [
     ("C13", "f3_check_with_tolerance", EL, "            if np.any(self.offset.to_array() != 0.0):", "            if not self.offset.equals(PoseSE2.identity()):"),
     ("C13", "vertex_se3_float32", VX, "            return \"VERTEX_SE3:QUAT {} {} {} {} {} {} {} {}\\n\".format(\n                self.id,\n                self.pose[0],", "            return \"VERTEX_SE3:QUAT {} {} {} {} {} {} {} {}\\n\".format(\n                self.id,\n                np.float32(self.pose[0]),"),
     ("C13", "params_se3_written_qw_first", PR, "            self.value[3],\n            self.value[4],\n            self.value[5],\n            self.value[6],\n        )", "            self.value[6],\n            self.value[3],\n            self.value[4],\n            self.value[5],\n        )"),
-    ("C13", "export_skips_duplicate_edges", G, "            for e in self._edges:\n                edge_str_or_none = e.to_g2o()\n                if edge_str_or_none:\n",
-     "            seen = set()\n            for e in self._edges:\n                edge_str_or_none = e.to_g2o()\n                if edge_str_or_none in seen:\n                    continue\n                seen.add(edge_str_or_none)\n                if edge_str_or_none:\n"),
+    ("C13", "export_skips_duplicate_edges", G, "            if edge_str_or_none:\n                lines.append(edge_str_or_none)\n",
+     "            if edge_str_or_none and edge_str_or_none not in lines:\n                lines.append(edge_str_or_none)\n"),
+    ("C13", "revert_F11_refusal_after_truncation", G, '        lines = []\n        if self._g2o_params:\n            for g2o_param in self._g2o_params.values():\n                lines.append(g2o_param.to_g2o())\n\n        for v in self._vertices:\n            lines.append(v.to_g2o())\n\n        for e in self._edges:\n            edge_str_or_none = e.to_g2o()\n            if edge_str_or_none:\n                lines.append(edge_str_or_none)\n\n        with open(outfile, "w") as f:\n            for line in lines:\n                f.write(line)\n', '        with open(outfile, "w") as f:\n            if self._g2o_params:\n                for g2o_param in self._g2o_params.values():\n                    f.write(g2o_param.to_g2o())\n\n            for v in self._vertices:\n                f.write(v.to_g2o())\n\n            for e in self._edges:\n                edge_str_or_none = e.to_g2o()\n                if edge_str_or_none:\n                    f.write(edge_str_or_none)\n'),
+    ("C06", "revert_F10_lil_matrix_to_spsolve", G, "spsolve(self._hessian.tocsc(), -self._gradient)", "spsolve(self._hessian, -self._gradient)"),
+    ("C12", "revert_F10_lil_matrix_to_spsolve", G, "spsolve(self._hessian.tocsc(), -self._gradient)", "spsolve(self._hessian, -self._gradient)"),
     # ------------------------------------------------------------------ C14
     ("C14", "vertex_se2_prefix_without_space", VX, "        if line.startswith(\"VERTEX_SE2 \"):", "        if line.startswith(\"VERTEX_SE2\"):"),
     ("C14", "edge_se2_prefix_without_space", EO, "        if line.startswith(\"EDGE_SE2 \"):", "        if line.startswith(\"EDGE_SE2\") and not line.startswith(\"EDGE_SE2_XY\"):"),
